@@ -230,9 +230,9 @@ def is_type_compatible(
 
     if _check_identical_or_any(incoming_type, required_type):
         return True
-    if (result := _is_typevar_compatible(incoming_type, required_type, memo)) is not None:
-        return result
     if (result := _handle_union_types(incoming_type, required_type, memo)) is not None:
+        return result
+    if (result := _is_typevar_compatible(incoming_type, required_type, memo)) is not None:
         return result
     if (result := _handle_generic_types(incoming_type, required_type, memo)) is not None:
         return result
@@ -253,11 +253,9 @@ def _is_typevar_compatible(
         is_type_compatible(incoming_type, c, memo) for c in required_type.__constraints__
     ):
         return True
-    return required_type.__bound__ and is_type_compatible(
-        incoming_type,
-        required_type.__bound__,
-        memo,
-    )
+    if required_type.__bound__ is None:
+        return False
+    return is_type_compatible(incoming_type, required_type.__bound__, memo)
 
 
 def is_object_array_type(tp: Any) -> bool:
